@@ -1,2 +1,11 @@
 import CssVerif.Props.C08
-#print axioms CssVerif.C08.placeholder
+#print axioms CssVerif.C08.gen_nonNullable
+#print axioms CssVerif.C08.gen_coversAll
+#print axioms CssVerif.C08.gen_fastNoNl
+#print axioms CssVerif.C08.gen_backslashOnly
+#print axioms CssVerif.C08.tokenize_total
+#print axioms CssVerif.C08.partition
+#print axioms CssVerif.C08.value_eq_raw
+#print axioms CssVerif.C08.position
+#print axioms CssVerif.C08.all_emitted
+#print axioms CssVerif.Re.exec_eq_head
